@@ -28,7 +28,8 @@ REPO = Path(os.environ.get("VERIF_REPO", "/repo"))
 COQ = VERIF / "coq"
 CASES = COQ / "cases"
 GEN = COQ / "gen"
-EVID = VERIF / "evidence"
+# evidence is only ever written for /repo itself; runs against scratch trees (seeded changes) go elsewhere
+EVID = VERIF / "evidence" if str(REPO) == "/repo" else VERIF / "evidence_scratch"
 REPLAYS = VERIF / "replays"
 CORPUS = VERIF / "corpus"
 NCPU = int(os.environ.get("VERIF_JOBS", "16"))
